@@ -564,10 +564,6 @@ theorem identityStep_ui (ui : UI σ) (dec : String → Option Bytes) (s : IState
   simp only [uiCommands, List.mem_cons, List.not_mem_nil, or_false] at hm
   apply identityStep_handle <;> (rcases hm with h | h | h | h <;> (rw [h]; decide))
 
-/-- types that neither machine treats specially and that `handle` cannot reject -/
-def harmless (t : String) : Prop :=
-  t ∉ ["recipient-stanza", "labels", "file-key", "error", "done", "confirm"]
-
 theorem recipientStep_harmless (ui : UI σ) (dec : String → Option Bytes) (s : RState σ) (m : Stanza)
     (hm : harmless m.type) : ∃ s' r, recipientStep ui dec s m = .next s' r := by
   simp only [harmless, List.mem_cons, List.not_mem_nil, or_false, not_or] at hm
